@@ -382,3 +382,42 @@ def install_spec(I):
 
 if install_spec not in spec.EXTRA_INSTALLERS:
     spec.EXTRA_INSTALLERS.append(install_spec)
+
+
+def lan_api(b):
+    """real LifxLanApi (constructor bypassed) over a lifxlan.LifxLAN stub recording all-lights requests."""
+    I = b.I
+    stub = Opaque('lifxlan')
+    stub.native = {'kind': 'device'}
+
+    def chk(I_, v, what, top):
+        cn = I_.ghost.get('contract_name', '?')
+        if kind_of(v) != 'int' or isinstance(v, bool):
+            I_.oblige('%s::device.%s-is-int' % (cn, what), False, kind='pre', info={'value': repr(v)})
+        else:
+            I_.oblige('%s::device.%s-in-range' % (cn, what), z3.And(to_term(v, 'int') >= 0, to_term(v, 'int') <= top), kind='pre')
+
+    def set_color_all(I_, o, a, k):
+        col = a[0]
+        if not isinstance(col, PyList) or len(col.items) != 4:
+            I_.oblige('%s::device.all-color-is-4-list' % I_.ghost.get('contract_name'), False, kind='pre')
+        else:
+            for i, x in enumerate(col.items):
+                chk(I_, x, 'set_color_all_lights.color[%d]' % i, 65535)
+        chk(I_, a[1], 'set_color_all_lights.duration', 4294967295)
+        I_.ghost.setdefault('Dev', PyList()).items.append((stub, 'set_color_all_lights', a[0], a[1]))
+
+    def set_power_all(I_, o, a, k):
+        chk(I_, a[0], 'set_power_all_lights.power', 65535)
+        chk(I_, a[1], 'set_power_all_lights.duration', 4294967295)
+        I_.ghost.setdefault('Dev', PyList()).items.append((stub, 'set_power_all_lights', a[0], a[1]))
+    stub.methods.update(set_color_all_lights=set_color_all, set_power_all_lights=set_power_all)
+    api = PyObj(b.cls('bardolph.controller.lifx_lan_api', 'LifxLanApi'), {'_lifxlan': stub})
+    return api, stub
+
+
+def color_matrix(b, height, width, cells):
+    """real ColorMatrix (constructor bypassed); cells: row-major list of None / PyList colours."""
+    cls = b.cls('bardolph.controller.color_matrix', 'ColorMatrix')
+    rows = [PyList([cells[r * width + c] for c in range(width)]) for r in range(height)]
+    return PyObj(cls, {'_height': height, '_width': width, '_mat': PyList(rows)})
